@@ -2,7 +2,7 @@
 
 use crate::aio::{self, Mode, Script};
 use crate::drive::*;
-use crate::with_in;
+use vdrive::with_in;
 use bytes::Bytes;
 use pilota::thrift::{binary, binary_le, compact, TAsyncInputProtocol, TInputProtocol, ThriftException};
 use serde_json::json;
